@@ -19,13 +19,15 @@ META = {
         'C10.MASK-EXITS - on every path to every return the returned mask has received the working mask (so non-positive weights are flagged False also on the early exits); C10.LIMITS - lower/upper reach djs_reject unchanged and djs_reject uses diff < -lower*sigma, diff > upper*sigma in both '
         'branches; C10.LOOP - the loop is bounded by iiter <= maxiter, runs once for maxiter = 0, and continues exactly while '
         'djs_reject reports a changed mask (condition evaluated on the values True/False the flag can take); C10.ROWS - fit uses every '
-        'interval that holds at least one point. NOT decided: equality with an independent rejection procedure, curve invariance '
+        'interval that holds at least one point. C10.REQUIREN - the loop that counts the good points per breakpoint interval for requiren can reach the last data point; NOT decided: equality with an independent rejection procedure, curve invariance '
         'under permutation (needs numerical determinism of the solver).'),
-    'floors': {'C10.UNSORT': 5, 'C10.CTOR-SORTED': 1, 'C10.WEIGHT-MASK': 2, 'C10.INMASK': 2, 'C10.LIMITS': 7, 'C10.LOOP': 5, 'C10.ROWS': 2, 'C10.MASK-EXITS': 3},
+    'floors': {'C10.REQUIREN': 1, 'C10.UNSORT': 5, 'C10.CTOR-SORTED': 1, 'C10.WEIGHT-MASK': 2, 'C10.INMASK': 2, 'C10.LIMITS': 7, 'C10.LOOP': 5, 'C10.ROWS': 2, 'C10.MASK-EXITS': 3},
 }
 
 
 def run(ctx):
+    from .bsplinelib import check_requiren
+    check_requiren(ctx, ctx.repo, 'C10.REQUIREN')
     check_iterfit_order(ctx, ctx.repo, 'C10.UNSORT')
     check_iterfit_masks(ctx, ctx.repo)
     check_iterfit_loop(ctx, ctx.repo)
